@@ -185,7 +185,7 @@ func testC03AggregatesOnly(t *testing.T) {
 // Grouping columns written as paths: a table alias (a.g), a nested key (o.k), two paths that share a step, a path next to
 // a plain column. The key columns of every group read back in the select list and in HAVING.
 func testC03PathColumns(t *testing.T) {
-	r := &result{Property: "C03", Name: "grouping-columns-written-as-paths", Bound: "all tables of 0..3 rows over g in {x, y}, o.k in {p, q, missing}, o.m.z in {1, 2}; 6 queries (alias-qualified key, nested key, two nested keys, nested and plain key, HAVING on a nested key, star)"}
+	r := &result{Property: "C03", Name: "grouping-columns-written-as-paths", Bound: "all tables of 0..3 rows over g in {x, y}, o.k in {p, q, missing}, o.m.z in {1, 2}; 7 queries (alias-qualified key, nested key, two nested keys, two paths whose first steps are o and ok, nested and plain key, HAVING on a nested key)"}
 	type row = map[string]any
 	var shapes []row
 	for _, g := range []any{"x", "y"} {
@@ -195,7 +195,7 @@ func testC03PathColumns(t *testing.T) {
 				if k != nil {
 					o["k"] = k
 				}
-				shapes = append(shapes, row{"g": g, "o": o, "v": 1.0})
+				shapes = append(shapes, row{"g": g, "o": o, "ok": row{"z": z}, "v": 1.0})
 			}
 		}
 	}
@@ -235,6 +235,7 @@ func testC03PathColumns(t *testing.T) {
 		{"SELECT `o.k` AS k0, COUNT(*) AS c FROM t GROUP BY `o.k`", [][]string{{"o", "k"}}, nil},
 		{"SELECT `o.k` AS k0, `o.m.z` AS k1, COUNT(*) AS c FROM t GROUP BY `o.k`, `o.m.z`", [][]string{{"o", "k"}, {"o", "m", "z"}}, nil},
 		{"SELECT `o.m.z` AS k0, g AS k1, COUNT(*) AS c FROM t GROUP BY `o.m.z`, g", [][]string{{"o", "m", "z"}, {"g"}}, nil},
+		{"SELECT `o.k` AS k0, `ok.z` AS k1, COUNT(*) AS c FROM t GROUP BY `o.k`, `ok.z`", [][]string{{"o", "k"}, {"ok", "z"}}, nil},
 		{"SELECT `o.k` AS k0, COUNT(*) AS c FROM t GROUP BY `o.k` HAVING `o.k` = 'p'", [][]string{{"o", "k"}}, func(ks []any) bool { return ks[0] == "p" }},
 		{"SELECT `o.m.z` AS k0, COUNT(*) AS c FROM t GROUP BY `o.m.z` HAVING `o.m.z` > 1 AND COUNT(*) > 0", [][]string{{"o", "m", "z"}}, func(ks []any) bool { return ks[0] == 2.0 }},
 	}
